@@ -287,6 +287,38 @@ func VerifC16Binding() {
 	default:
 		verifAssert(got == Object(Int(7)), "a plain value is returned as is")
 	}
+	// the same attribute read again through another class of the hierarchy and its instance:
+	// each read binds what it was made through (no binding is remembered from an earlier read)
+	sib := &Type{Name: "E", Dict: StringDict{}, Bases: Tuple{base}, ObjectType: TypeType}
+	sib.Mro = Tuple{sib, base}
+	if holder != base {
+		return
+	}
+	inst2 := &c16Inst{t: sib, dict: StringDict{}}
+	got2, err := GetAttrString(inst2, "m")
+	verifAssert(err == nil, "found through the instance of a sibling class")
+	got3, err := GetAttrString(sib, "m")
+	verifAssert(err == nil, "found through the sibling class")
+	switch kind {
+	case 0:
+		bm, ok := got2.(*BoundMethod)
+		verifAssert(ok && bm.Self == Object(inst2) && bm.Method == Object(fn), "a plain function binds the instance it was read through")
+		verifAssert(got3 == Object(fn), "a plain function read through the class is the function itself")
+	case 1:
+		bm, ok := got2.(*BoundMethod)
+		verifAssert(ok && bm.Self == Object(sib) && bm.Method == Object(fn), "an inherited classmethod binds the class of the instance it was read through")
+		bm3, ok := got3.(*BoundMethod)
+		verifAssert(ok && bm3.Self == Object(sib) && bm3.Method == Object(fn), "an inherited classmethod binds the class it was read through")
+	case 2:
+		verifAssert(got2 == Object(fn) && got3 == Object(fn), "a staticmethod binds nothing")
+	}
+	// and the first class again
+	got4, err := GetAttrString(inst, "m")
+	verifAssert(err == nil, "found again")
+	if kind == 1 {
+		bm, ok := got4.(*BoundMethod)
+		verifAssert(ok && bm.Self == Object(cls), "reading through the first class again binds the first class")
+	}
 }
 
 //verif:property C16
